@@ -521,8 +521,6 @@ func Connect(ctx context.Context, conn net.Conn, opt Options) (*Client, error) {
 		meter:    opt.meter,
 		quotaKey: opt.QuotaKey,
 
-		readTimeout: opt.ReadTimeout,
-
 		compression: compression,
 		compressor:  compress.NewWriter(compress.Level(opt.CompressionLevel), compressionMethod),
 
@@ -546,6 +544,9 @@ func Connect(ctx context.Context, conn net.Conn, opt Options) (*Client, error) {
 	if err := c.handshake(handshakeCtx); err != nil {
 		return nil, errors.Wrap(err, "handshake")
 	}
+	// The per-packet read timeout applies to established connections only:
+	// waiting for the server hello is bounded by HandshakeTimeout.
+	c.readTimeout = opt.ReadTimeout
 
 	return c, nil
 }
